@@ -7,6 +7,7 @@ From Verif.C19 Require Export Model.
 Definition U (l : list N) : list N := l.
 Arguments U l%N.
 Arguments NQ z%Z.
+Arguments NBits b%N.
 Arguments VCyc up%nat.
 Arguments VToJSON k%N inner.
 Arguments RFun k%N.
@@ -157,12 +158,49 @@ Definition parse_expected (t : list N) : option pval :=
 
 Definition sobs_text (o : sobs) : option (list N) := match o with TText t => Some t | _ => None end.
 
+Definition sout_match (e : sout) (o : sobs) : bool :=
+  match e, o with
+  | SText t, TText t' => list_eqb t t'
+  | SUndef, TUndef => true
+  | SThrow, TErr c => c =? 1
+  | _, _ => false
+  end.
+
+(* the parsed value as a JS value: numbers are the doubles goja produced (checked against the text by
+   [round_ok]); JSON.stringify of it must be EXACTLY the model's text, number tokens included (Number::toString
+   of property C12).  Evaluating the shortest-digits specification is slow for extreme exponents, so the exact
+   comparison is made when every number is zero or has a binary exponent in about [-320, 380]; the others
+   keep the weaker test below (a canonical JSON number that parses back to the same double). *)
+Definition cheap_bits (bits : N) : bool :=
+  let E := bits_E bits in
+  ((Z.eqb E 0) && (Z.eqb (bits_F bits) 0)) || ((Z.leb 700 E) && (Z.leb E 1400)).
+
+Fixpoint dump_cheap (d : dump) : bool :=
+  match d with
+  | DNum b => cheap_bits b
+  | DArr _ l => forallb dump_cheap l
+  | DObj _ l => forallb (fun kv => dump_cheap (snd kv)) l
+  | _ => true
+  end.
+
+Fixpoint jv_of_dump (d : dump) : jv :=
+  match d with
+  | DNull => VNull
+  | DBool b => VBool b
+  | DNum b => VNum (NBits b)
+  | DStr s => VStr s
+  | DArr _ l => VArr (map jv_of_dump l)
+  | DObj _ l => VObj (map (fun kv => (fst kv, jv_of_dump (snd kv))) l)
+  | DOther => VUndef
+  end.
+
 (* stringify(parse t): must be a fixed point of the canonical printer and denote the same value *)
 Definition s2_ok (p : pval) (d : dump) (s2 : sobs) : bool :=
   match s2 with
   | TText t2 =>
     match parse t2 with
-    | Some j2 => list_eqb (print j2) t2 && match_dump true (to_js j2) d
+    | Some j2 => list_eqb (print j2) t2 && match_dump true (to_js j2) d &&
+                 (if dump_cheap d then sout_match (stringify (jv_of_dump d) RNone VUndef) s2 else true)
     | None => false
     end
   | _ => false
@@ -172,14 +210,6 @@ Definition check_parse (t : list N) (o : pobs) : bool :=
   match parse_expected t, o with
   | None, PErr e => e =? 3
   | Some p, PVal d s2 => match_dump false p d && s2_ok p d s2
-  | _, _ => false
-  end.
-
-Definition sout_match (e : sout) (o : sobs) : bool :=
-  match e, o with
-  | SText t, TText t' => list_eqb t t'
-  | SUndef, TUndef => true
-  | SThrow, TErr c => c =? 1
   | _, _ => false
   end.
 
